@@ -36,6 +36,44 @@ def source_params(src):
         if src.get(k) is not None: t[k] = src[k]
     return t
 
+import sigma.modifiers as _mods
+from sigma.types import SigmaNumber, SigmaString, SigmaRegularExpression
+
+# class-level state of the modifier classes at import time: a fresh setup puts it back (whatever mechanism caches per class)
+_MOD_CLASSES = [c for c in vars(_mods).values() if isinstance(c, type) and issubclass(c, SigmaModifier)]
+_MOD_ATTRS = {c: set(vars(c)) for c in _MOD_CLASSES}
+_MOD_TABLE = dict(_mods.modifier_mapping)
+_MOD_RTABLE = dict(_mods.reverse_modifier_mapping)
+
+def reset_modifier_state():
+    for c in _MOD_CLASSES:
+        for name in set(vars(c)) - _MOD_ATTRS[c]:
+            delattr(c, name)
+    cache = getattr(SigmaModifier, "_type_hint_cache", None)
+    if isinstance(cache, dict):
+        cache.clear()
+    _mods.modifier_mapping.clear(); _mods.modifier_mapping.update(_MOD_TABLE)
+    _mods.reverse_modifier_mapping.clear(); _mods.reverse_modifier_mapping.update(_MOD_RTABLE)
+
+def register_lcontains():
+    """a modifier a plugin could register: contains that also takes numbers (wider value type than its base class)"""
+    class LContains(_mods.SigmaContainsModifier):
+        def modify(self, val: SigmaString | SigmaRegularExpression | SigmaNumber) -> SigmaString | SigmaRegularExpression:
+            if isinstance(val, SigmaNumber):
+                val = SigmaString(str(val))
+            return super().modify(val)
+    _mods.modifier_mapping["lcontains"] = LContains
+    _mods.reverse_modifier_mapping["LContains"] = "lcontains"
+    return LContains
+
+def cached_hint_classes(extra):
+    """names of the modifier classes for which a type hint is cached now (dict of the shipped code; otherwise whatever
+    attribute a class grew since the setup)"""
+    cache = getattr(SigmaModifier, "_type_hint_cache", None)
+    if isinstance(cache, dict):
+        return [k.__name__ for k in cache]
+    return sorted(c.__name__ for c in _MOD_CLASSES + extra if set(vars(c)) - _MOD_ATTRS.get(c, set(vars(c))))
+
 FMT = ["default", "test", "state", "fields"]
 PRODUCT = [None, "windows", "linux"]
 
@@ -167,7 +205,8 @@ def make_class(k, cdef):
         attrs["state_defaults"] = dict(cdef["sdef"])      # the class's own dict; otherwise the one of TextQueryBackend is inherited
     if cdef["ne"]:
         attrs.update({"convert_not_as_not_eq": True, "not_eq_token": "!=",
-                      "not_startswith_expression": "{field} not_startswith {value}"})
+                      "not_startswith_expression": "{field} not_startswith {value}",
+                      "not_contains_expression": "{field} not_contains {value}"})
     return type(f"C15Backend{k}", (TextQueryTestBackend,), attrs)
 
 # ---- rules ----
@@ -184,6 +223,8 @@ def rule_doc(r, n):
             elif kind == "sw": d[field + "|startswith"] = text
             elif kind == "ph": d[field + "|expand"] = "%" + text + "%"
             elif kind == "re": d[field + "|re"] = text
+            elif kind == "ct": d[field + "|contains"] = text
+            elif kind == "lc": d[field + "|lcontains"] = int(text) if text.isdigit() else text
             else: raise ValueError(kind)
         det[name] = d
     if r["conds"]:
@@ -223,7 +264,8 @@ def canon_fm(fm):
 class World:
     def __init__(self, case):
         _parse_condition_string.cache_clear()
-        SigmaModifier._type_hint_cache.clear()
+        reset_modifier_state()
+        self.lcontains = register_lcontains()
         self.classes = [make_class(k, c) for k, c in enumerate(case["classes"])]
         self.orig = [{a: getattr(c, a) for a in TEMPLATE_ATTRS} for c in self.classes]
         self.users = [make_pipeline(case["pdefs"][d]) for d in case["users"]]
@@ -257,14 +299,14 @@ class World:
                     c = it.transformation._values_cache
                     vc.append(None if c is None else [str(x) for x in c])
         return {"hits": ci.hits, "misses": ci.misses, "cached": ci.currsize, "vc": vc,
-                "hints": [k.__name__ for k in SigmaModifier._type_hint_cache],
+                "hints": cached_hint_classes([self.lcontains]),
                 "tpl_ok": src_vars_ok and all(getattr(c, a) == o[a] for c, o in zip(self.classes, self.orig) for a in TEMPLATE_ATTRS)
                           # set on the class by TextQueryBackend.__new__: constant once an instance exists
                           and all(type(b).explicit_not_exists_expression == (type(b).field_not_exists_expression is not None)
-                                  for b in self.backends)}
+                                  for b in self.backends if b is not None)}
 
     def snap(self, b):
-        p = getattr(self.backends[b], "last_processing_pipeline", None)
+        p = getattr(self.backends[b], "last_processing_pipeline", None) if self.backends[b] is not None else None
         if p is None:
             return None
         return {"applied": list(p.applied), "ids": sorted(p.applied_ids),
@@ -278,21 +320,29 @@ class World:
         if kind == "load":
             try:
                 self.load(op[1]); out["r"] = ["ok"]
-            except SigmaError as e:
+            except Exception as e:   # noqa - whatever the code under test raises is the outcome of the operation
                 out["r"] = err(e)
         elif kind == "new":
             cls, user, collect = op[1:4]
             opts = op[4] if len(op) > 4 else {}      # backend options: keyword arguments of the constructor
-            self.backends.append(self.classes[cls](self.users[user] if user is not None else None, collect_errors=collect, **opts))
-            out["r"] = ["ok"]
+            self.backends.append(None)
+            try:
+                self.backends[-1] = self.classes[cls](self.users[user] if user is not None else None, collect_errors=collect, **opts)
+                out["r"] = ["ok"]
+            except Exception as e:   # noqa
+                out["r"] = err(e)
         elif kind == "init":
             _, b, fmt = op
-            self.backends[b].init_processing_pipeline(FMT[fmt])
-            out["r"] = ["ok"]; out["snap"] = self.snap(b)
+            try:
+                self.backends[b].init_processing_pipeline(FMT[fmt])
+                out["r"] = ["ok"]
+            except Exception as e:   # noqa
+                out["r"] = err(e)
+            out["snap"] = self.snap(b)
         elif kind in ("rule", "coll", "collf"):
             b, fmt = op[1], op[-1]
             bk = self.backends[b]
-            nerr = len(bk.errors)
+            nerr = len(bk.errors) if bk is not None else 0
             try:
                 if kind == "rule":
                     rule = self.load(op[2])
@@ -306,7 +356,7 @@ class World:
                 out["r"] = ["q", [x if isinstance(x, str) else repr(x) for x in (q if isinstance(q, list) else [q])]]
             except Exception as e:  # noqa
                 out["r"] = err(e)
-            out["errs"] = [type(e).__name__ for _, e in bk.errors[nerr:]]
+            out["errs"] = [type(e).__name__ for _, e in bk.errors[nerr:]] if bk is not None else []
             out["snap"] = self.snap(b)
         else:
             raise ValueError(kind)
